@@ -212,20 +212,40 @@ example : checkTxFee ⟨[], 0⟩ true true ["/a"] (2 ^ 63) [⟨"FX", 1⟩] [⟨"
 
 /-- **obligation over the regenerated table**: every potentially panicking construct in the fx-core functions reachable
 from `ValidateBasic`/`Validate`/`ParseMethodArgs`/`UnpackInput`/`ParseFxTarget`/address parsers/the ante package has a
-dominating guard, or is on the reviewed list (keyed by function, kind, expression), or — ante package only — runs under
-the deferred `Recover` of `NewAnteHandler`.  A new unguarded site in the source breaks this proof. -/
+dominating guard, or is on the reviewed list (keyed by function, kind, expression), or — ante package only — is guarded or
+reviewed in the typed ante inventory (`ante_sites_ok`).  A new unguarded site in the source breaks this proof. -/
 theorem validation_sites_guarded : sites.all siteOk = true := by decide
 
-/-- unfolded form of the obligation -/
+/-- unfolded form of the obligation: an ante-package site is accepted only through the typed ante inventory (guarded or
+reviewed there) — never because it "runs under the deferred Recover" -/
 theorem site_cases (s : Site) (hs : s ∈ sites) :
     s.guarded = true ∨ (∃ r ∈ reviewedSafe, r.covers s = true) ∨
-      (s.pkg = "ante" ∧ anteRecoversFirst = true ∧ ∃ r ∈ containedByAnteRecover, r.covers s = true) := by
+      (s.pkg = "ante" ∧ ∃ t ∈ FxVerif.Gen.C20Run.anteSites, t.recv = s.recv ∧ t.meth = s.meth ∧ t.expr = s.expr ∧
+        FxVerif.Model.C20Run.anteSiteOk t = true) := by
   have h := List.all_eq_true.1 validation_sites_guarded s hs
-  simp only [siteOk, Bool.or_eq_true, Bool.and_eq_true, List.any_eq_true, beq_iff_eq] at h
+  simp only [siteOk, coveredByTypedAnte, Bool.or_eq_true, Bool.and_eq_true, List.any_eq_true, beq_iff_eq] at h
   rcases h with (h | h) | h
   · exact Or.inl h
   · exact Or.inr (Or.inl h)
-  · exact Or.inr (Or.inr ⟨h.1.1, h.1.2, h.2⟩)
+  · obtain ⟨hp, t, ht, ⟨⟨⟨h1, h2⟩, h3⟩, h4⟩⟩ := h
+    exact Or.inr (Or.inr ⟨hp, t, ht, h1, h2, h3, h4⟩)
+
+/-- **obligation over the typed inventory of the ante package**: every index / slice / division / narrowing / map-write /
+assertion site in every function of `ante/*.go` (decorators, fee checker, signature gas consumer) has a recognised
+dominating guard (`len(pubkeys) != len(signers)` before `signers[i]`, `size != len(pubKeys)` before `pubKeys[i]`, …) or is
+on the reviewed list with the early return it relies on pinned.  No site is accepted for running under `Recover`. -/
+theorem ante_sites_ok : FxVerif.Gen.C20Run.anteSites.all FxVerif.Model.C20Run.anteSiteOk = true := by decide
+
+theorem reviewed_ante_entries_live :
+    FxVerif.Model.C20Run.reviewedAnte.all (fun r => FxVerif.Gen.C20Run.anteSites.any fun s => r.covers s && !s.guarded) = true := by
+  decide
+
+/-- the inventory sees the decorators: it contains the signer index of `PubKeyDecorator` and both index sites of the
+multisignature gas consumer -/
+theorem ante_inventory_has_key_sites :
+    FxVerif.Gen.C20Run.anteSites.any (fun s => s.recv == "PubKeyDecorator" && s.meth == "AnteHandle" && s.expr == "signers[i]") = true ∧
+    (FxVerif.Gen.C20Run.anteSites.filter fun s => s.meth == "ConsumeMultisignatureVerificationGas" && s.kind == "index").length = 2 := by
+  decide
 
 /-- the ante handler returned by `NewAnteHandler` converts every panic of its decorators into an error -/
 theorem ante_handler_recovers : anteRecoversFirst = true := by decide
@@ -239,7 +259,7 @@ theorem precompile_dispatch_length_checked :
 
 /-- no stale review entries: each one still matches a site of the current source -/
 theorem reviewed_entries_live :
-    (reviewedSafe ++ containedByAnteRecover).all (fun r => sites.any fun s => r.covers s && !s.guarded) = true := by decide
+    reviewedSafe.all (fun r => sites.any fun s => r.covers s && !s.guarded) = true := by decide
 
 /-- no explicit `panic(`, `Must*` call or unchecked type assertion is reachable from stateless message validation
 (packages `x/*/types`, `types`, `contract`) -/
@@ -317,6 +337,76 @@ theorem isValidChannelID_format (s : List Char) (h : isValidChannelID s = true) 
         decide_eq_true_eq] at h
       exact ⟨h.1.1.1, h.1.1.2, h.1.2, h.2⟩
   · simp at h
+
+/-! ## the NODE's fee rule: the checker as `app.go` wires it from the configuration
+
+`Gen.C20.wiredCheckTxFeees cfgTypes cfgMaxGas` is `setAnteHandler` translated statement by statement: how
+`bypass-min-fee.msg-types` and `bypass-min-fee.msg-max-gas-usage` (absent = `[]` / `0`) reach `NewCheckTxFeees`.  Any
+defaulting or rewriting of the configured values in app.go appears in that definition and breaks these theorems. -/
+section Node
+
+/-- the app hands the configured values to the checker unchanged -/
+theorem wired_checker_is_config (cfgTypes : List String) (cfgMaxGas : Nat) :
+    wiredCheckTxFeees cfgTypes cfgMaxGas = ⟨cfgTypes, cfgMaxGas⟩ := rfl
+
+/-- **the node's bypass rule in terms of its configuration** -/
+theorem node_bypass_iff (cfgTypes : List String) (cfgMaxGas : Nat) (msgs : List String) (gas : Nat) :
+    isByPassMinFee (wiredCheckTxFeees cfgTypes cfgMaxGas) msgs gas = true ↔
+      msgs ≠ [] ∧ (∀ m ∈ msgs, m ∈ cfgTypes) ∧ gas ≤ (msgs.length * cfgMaxGas) % 2 ^ 64 := by
+  rw [wired_checker_is_config]; exact bypass_iff _ msgs gas
+
+/-- the property's wording for the node: a transaction skips the minimum price ONLY IF every message type is configured as
+fee-exempt and the gas limit is within the configured per-message allowance -/
+theorem node_bypass_only_if (cfgTypes : List String) (cfgMaxGas : Nat) (msgs : List String) (gas : Nat)
+    (h : isByPassMinFee (wiredCheckTxFeees cfgTypes cfgMaxGas) msgs gas = true) :
+    (∀ m ∈ msgs, m ∈ cfgTypes) ∧ gas ≤ msgs.length * cfgMaxGas := by
+  rw [wired_checker_is_config] at h; exact bypass_only_if _ msgs gas h
+
+/-- an allowance of 0 — or an absent key, which reads as 0 — gives NO free gas: no transaction with a positive gas limit
+bypasses, whatever its messages -/
+theorem node_zero_allowance_exempts_nothing (cfgTypes : List String) (msgs : List String) (gas : Nat) (hg : 0 < gas) :
+    isByPassMinFee (wiredCheckTxFeees cfgTypes 0) msgs gas = false := by
+  cases h : isByPassMinFee (wiredCheckTxFeees cfgTypes 0) msgs gas with
+  | false => rfl
+  | true =>
+    have := (node_bypass_only_if cfgTypes 0 msgs gas h).2
+    omega
+
+/-- no exempt types configured (or the key absent): nothing bypasses -/
+theorem node_no_exempt_types_exempts_nothing (cfgMaxGas : Nat) (msgs : List String) (gas : Nat) :
+    isByPassMinFee (wiredCheckTxFeees [] cfgMaxGas) msgs gas = false := by
+  cases h : isByPassMinFee (wiredCheckTxFeees [] cfgMaxGas) msgs gas with
+  | false => rfl
+  | true =>
+    obtain ⟨hne, hall, _⟩ := (node_bypass_iff [] cfgMaxGas msgs gas).1 h
+    cases msgs with
+    | nil => exact absurd rfl hne
+    | cons m rest => exact absurd (hall m (by simp)) (by simp)
+
+/-- exact CheckTx admission rule of the node, for all inputs, in terms of its configuration -/
+theorem node_checktx_accept_iff (cfgTypes : List String) (cfgMaxGas : Nat) (msgs : List String) (gas : Nat) (fee : List Coin)
+    (prices : List DecCoin) :
+    checkTxFee (wiredCheckTxFeees cfgTypes cfgMaxGas) true true msgs gas fee prices = .accept ↔
+      ¬ (int64OfU64 gas = 0 ∧ fee ≠ []) ∧
+      ((msgs ≠ [] ∧ (∀ m ∈ msgs, m ∈ cfgTypes) ∧ gas ≤ (msgs.length * cfgMaxGas) % 2 ^ 64) ∨ decCoinsIsZero prices = true ∨
+        ((reqFees prices gas).any newCoinPanics = false ∧ isAnyGTE fee (reqFees prices gas) = true)) := by
+  rw [checktx_accept_iff, node_bypass_iff]
+
+/-- the property's last sentence for the node: below the minimum price and not within the configured exemption ⇒ refused -/
+theorem node_below_min_refused (cfgTypes : List String) (cfgMaxGas : Nat) (msgs : List String) (gas : Nat) (fee : List Coin)
+    (prices : List DecCoin) (hg0 : 0 < gas) (hg : gas < 2 ^ 63) (hp : ∀ p ∈ prices, 0 ≤ p.amount)
+    (hnb : ¬ (msgs ≠ [] ∧ (∀ m ∈ msgs, m ∈ cfgTypes) ∧ gas ≤ (msgs.length * cfgMaxGas) % 2 ^ 64))
+    (hmin : ∃ p ∈ prices, p.amount ≠ 0) (hlow : ∀ c ∈ fee, ¬ covers prices gas c) :
+    checkTxFee (wiredCheckTxFeees cfgTypes cfgMaxGas) true true msgs gas fee prices = .refuse := by
+  apply below_min_refused _ msgs gas fee prices hg0 hg hp _ hmin hlow
+  cases h : isByPassMinFee (wiredCheckTxFeees cfgTypes cfgMaxGas) msgs gas with
+  | false => rfl
+  | true => exact absurd ((node_bypass_iff cfgTypes cfgMaxGas msgs gas).1 h) hnb
+
+example : checkTxFee (wiredCheckTxFeees ["/a"] 0) true true ["/a"] 150000 [] [⟨"FX", 2500000000000000000⟩] = .refuse := by decide
+example : checkTxFee (wiredCheckTxFeees ["/a"] 300000) true true ["/a"] 150000 [] [⟨"FX", 2500000000000000000⟩] = .accept := by decide
+
+end Node
 
 /-! ## wiring read off the AST: ante chain order, routing, node configuration, `ValidateModuleName`, `Byte32ToString` -/
 section Wiring
